@@ -159,6 +159,56 @@ pub fn explore<T>(
     }
 }
 
+/// Enumerate every execution whose trace starts with `root` (the points of `root` are fixed, including the
+/// last one), with at most `max_devs` deviations in total. Used to shard an exploration by its first deviation.
+pub fn explore_below(
+    max_devs: usize,
+    root: Vec<Point>,
+    max_execs: Option<u64>,
+    mut body: impl FnMut(&mut Ctx) -> Option<()>,
+) -> Stats {
+    let mut st = Stats::default();
+    let root_len = root.len();
+    let mut prefix = root;
+    loop {
+        let mut ctx = Ctx::new(prefix, max_devs);
+        let r = body(&mut ctx);
+        if let Some(d) = &ctx.diverged {
+            eprintln!("MACHINERY ERROR: {d}");
+            std::process::exit(2);
+        }
+        st.executions += 1;
+        st.points += ctx.trace.len() as u64;
+        st.max_depth = st.max_depth.max(ctx.trace.len());
+        if r.is_none() {
+            st.pruned += 1;
+        }
+        if let Some(cap) = max_execs {
+            if st.executions >= cap {
+                st.cap_hit = true;
+                return st;
+            }
+        }
+        let mut tr = ctx.trace;
+        loop {
+            if tr.len() <= root_len {
+                return st;
+            }
+            let last = tr.last().cloned().unwrap();
+            let depth = tr.len() - 1;
+            let devs_before: usize = tr[..depth].iter().filter(|p| p.dev && p.choice != 0).count();
+            let next = last.choice + 1;
+            let affordable = !last.dev || devs_before + 1 <= max_devs;
+            if next < last.arity && affordable {
+                tr[depth].choice = next;
+                break;
+            }
+            tr.pop();
+        }
+        prefix = tr;
+    }
+}
+
 /// Enumerate and collect every case with its choice sequence.
 pub fn collect<T>(
     max_devs: usize,
